@@ -128,7 +128,7 @@ def run(ctx):
     ctx.check("R3-option-from-full-stack", f"{BR}:Branch.get_append_revisions_only", any(r_ == "self.get_config_stack().get('append_revisions_only')" for r_ in rets), "append_revisions_only is read from the branch's full configuration stack", construct=str(rets), message="append_revisions_only is no longer read from get_config_stack(): settings outside branch.conf would be ignored by the enforcement")
 
     # ---- R4 -----------------------------------------------------------------
-    fn, g, where = fn_cfg(ctx, BR, "Branch.generate_revision_history")
+    fn, g, where = fn_cfg(ctx, BR, "Branch.generate_revision_history", roles={"graph": ("assign", "self.repository.get_graph()")})
     setl = need(where, calling(g, attr="set_last_revision_info", recv="self"), "set_last_revision_info")
     k2_unreachable(ctx, "R4-generate-checks-ancestry", where, g, {"last_rev is not None": True, "graph.is_ancestor(last_rev, revision_id)": False}, setl, "generate_revision_history refuses (DivergedBranches) when the previous tip is not merged into the new one")
     # R5 siblings: other Branch implementations overriding set_last_revision_info (information)
